@@ -127,7 +127,7 @@ extend("C20", "uncompiled shared expressions with compiled clones, two integer w
 extend("C03", "DFDF pipeline (deep -> flat -> deep -> flat) in every campaign", "Pipelines include repeated conversion in both directions (DFDF) on every tree and on the large families.")
 extend("C05", "one-level expressions with 19..64 mixed-priority operators", "A family of large single-level texts (19..64 binary operators of mixed priority, non-commutative ties) is differentiated in every form and compared over exact rationals.")
 extend("C06", "`=` in the token alphabets of the statement-line entry points", "The statement entry points are also driven with `=` as a token at every position.")
-extend("C09", "texts with 16..200 variables; derived bases with signed groups", "Index arithmetic is explored on texts with up to 200 variables; derived-expression histories start also from bases with a signed group (x*(-(y*z))).")
+extend("C09", "base expressions with 18..19 variables (beyond the inline capacity of the variable lists); derived bases with signed groups", "Index arithmetic is also explored on four base expressions with 18..19 variables whose names are shared between the operands of a product / sum; derived-expression histories start also from bases with a signed group (x*(-(y*z))).")
 extend("C10", "uncompiled flat form; overloaded minus and named helpers in the derived-expression histories", "The by-name model also runs on parse_wo_compile expressions; derived-expression histories include the overloaded minus and the helpers cos() / exp().")
 extend("C13", "second factory (same names, reverse order) parsed on the same thread before every text; differential over all parsing entry points", "Three families parse a text with a reverse-order twin factory first; a differential compares FlatEx::parse, parse_wo_compile, DeepEx::parse, exmex::parse and eval_str on every text.")
 extend("C16", "component access on arrays of 0..300 elements per integer width", "The width sweep includes `.` (component access) with arrays longer than the largest i8 / i16.")
